@@ -366,6 +366,14 @@ def _assumption_inputs():
         (SymmetricTensor("s", (i, j), (a, b)) * A("d", (a,), (i,)), (j, b)),
         (A("d", (i,), (j,)) ** 2, ()),
         (A("V", (p, q), (i, j)) * A("V", (i, j), (p, q)), ()),
+        # powers of tensors in non-canonical orientation (the bra-ket swap of
+        # an antisymmetric declaration brings a sign: (-T)^n)
+        (A("d", (a,), (i,)) ** 2, ()),
+        (A("d", (a,), (i,)) ** 3 * A("x", (i,), (a,)), ()),
+        (A("d", (a, b), (i, j)) ** 2, ()),
+        (A("d", (a,), (i,)) ** 2 * A("x", (a, b), (i, j)) ** 2, (j, b)),
+        (A("d", (a, b), (i, j)) ** 4, (i, j, a, b)),
+        (Am("t2cc", (a, b), (i, j)) ** 2 * A("V", (a, b), (i, j)) ** 2, ()),
     ]
     return ex
 
